@@ -637,6 +637,13 @@ func (fr *Frame) enterCutLoop(n *unode, l *Loop, s *State, g *Term, phis []*ssa.
 	if fr.spec {
 		panic(fmt.Sprintf("loop in pure/spec function %s (loops need 'unroll' there)", fr.key))
 	}
+	// a `for k, v := range someMap` loop: hidden count of the entries visited so far (`rangeindex` in its clauses)
+	mapIter := mapRangeKey(l.Header)
+	if mapIter != "" {
+		if _, ok := s.ghost[mapIter]; !ok {
+			s.ghost[mapIter] = c.BV(0, 64)
+		}
+	}
 	// 1. invariant holds on entry (loop lemmas are available for that, instantiated at the entry state)
 	if fr.contract != nil && l.Ordinal > 0 && len(invs) > 0 {
 		for _, lm := range fr.contract.LoopLemmas[l.Ordinal] {
@@ -673,6 +680,9 @@ func (fr *Frame) enterCutLoop(n *unode, l *Loop, s *State, g *Term, phis []*ssa.
 		x.assumeWF(g, s.regs[phi], phi.Type(), s)
 	}
 	fr.havocTargets(s, pre, targets, g)
+	if mapIter != "" {
+		s.ghost[mapIter] = c.Fresh("loop_mapiter", SBV(64))
+	}
 	// ghost counters (effect counters of callee contracts, atcall counters) may be incremented by the body: they are
 	// arbitrary at the loop head, like everything the loop writes; invariants say what is known about them
 	counters := map[string]bool{} // ghosts declared with an initial value; rigid ghosts (no initial value) never change
@@ -790,9 +800,34 @@ func rangedSlice(hdr *ssa.BasicBlock) ssa.Value {
 // autoInvariants: invariants the engine supplies (and checks like any other)
 // for compiler-generated loop variables that no contract can name: the hidden
 // index of `for ... range slice` stays in [-1, len).
+// mapRangeKey: for the header block of a `for ... range someMap` loop, the key under which the state carries the
+// hidden number of entries visited so far ("" for other blocks).
+func mapRangeKey(hdr *ssa.BasicBlock) string {
+	for _, ins := range hdr.Instrs {
+		if nx, ok := ins.(*ssa.Next); ok && !nx.IsString {
+			if rng, ok := nx.Iter.(*ssa.Range); ok {
+				if _, isMap := types.Unalias(rng.X.Type()).Underlying().(*types.Map); isMap {
+					return fmt.Sprintf("$mapiter|%d", hdr.Index)
+				}
+			}
+		}
+	}
+	return ""
+}
+
 func (fr *Frame) autoInvariants(l *Loop, phis []*ssa.Phi) []func(*State) *Term {
 	c := fr.x.c
 	var out []func(*State) *Term
+	if key := mapRangeKey(l.Header); key != "" {
+		// a map has at most 2^56 entries and a range visits each at most once
+		out = append(out, func(s *State) *Term {
+			k, ok := s.ghost[key]
+			if !ok {
+				return c.True()
+			}
+			return c.And(c.BVCmp("bvsle", c.BV(0, 64), k), c.BVCmp("bvsle", k, c.BV(1<<56, 64)))
+		})
+	}
 	for _, phi := range phis {
 		if phi.Comment != "rangeindex" {
 			continue
